@@ -10,6 +10,7 @@ import OcVerif.Driver.Co
 import OcVerif.Driver.Local
 import OcVerif.Driver.Beans
 import OcVerif.Driver.Sel
+import OcVerif.Driver.Stack
 /-!
 `ocmodel`: reads history lines `<comp> <id> : <body> => <implementation outputs>` on stdin,
 runs the Lean model on `<body>`, compares with the implementation's outputs and evaluates the
@@ -33,6 +34,7 @@ def dispatch (comp : String) : Option (String → String → Verdict) :=
   | "local" => some Driver.Local.drive
   | "beans" => some Driver.Beans.drive
   | "sel" => some Driver.Sel.drive
+  | "stack" => some Driver.Stack.drive
   | _ => none
 
 def handle (line : String) : String :=
